@@ -232,6 +232,8 @@ mod nat_ty {
     pub struct R2 { pub inner: R1, pub more: Vec<V1>, pub note: Option<Nat> }
     #[derive(CandidType, Deserialize, Debug, PartialEq, Clone)]
     pub enum V2 { P(i16, u8), Q }
+    #[derive(CandidType, Deserialize, Debug, PartialEq, Clone)]
+    pub enum V3 { N(Option<V1>), S { list: Vec<u8>, t: (u8, u8) } }
 }
 
 fn native_case(k: usize, hexmsg: &str) -> String {
@@ -272,6 +274,11 @@ fn native_case(k: usize, hexmsg: &str) -> String {
         27 => one!([String; 2]),
         28 => two!([u8; 2], Vec<u8>),
         29 => two!([i32; 3], Option<[bool; 1]>),
+        30 => one!(std::collections::BTreeSet<i64>),
+        31 => one!(std::collections::VecDeque<Option<bool>>),
+        32 => one!(Box<Option<u8>>),
+        33 => one!(V3),
+        34 => one!(Result<u8, candid::Empty>),
         _ => "bad".to_string(),
     }
 }
